@@ -285,6 +285,13 @@ def normalise(log):
     return out
 
 
+def json_leaves(key):
+    """leaf indices of a memo key (the repr of a nested list of ints)"""
+    import re
+
+    return [int(x) for x in re.findall(r"\d+", key)]
+
+
 def is_left_to_right(t):
     while isinstance(t, list):
         if isinstance(t[1], list):
@@ -434,12 +441,30 @@ def run_chain(spec) -> Result:
         head = ev(spec["tree"])
         if spec.get("reuse") and hand_error is None:
             first_log = list(log)
-            log.clear()
-            second = ev(spec["tree"])  # the memoised sub-expressions are bound a second time
-            second_log = normalise(log)
-            if second_log != normalise(first_log) and spec["tail_form"] != "instance":
-                res.fail("reused-template-expression-differs", f"binding the same template expressions twice gives {second_log} the second time, {normalise(first_log)} the first (tree {spec['tree']})")
-                return res
+            # every intermediate template expression is bound once more, to a fresh pool: it must still describe exactly
+            # its own elements (an expression that was extended in place while building the full chain would not)
+            for key, expr in list(memo.items()):
+                sub = json_leaves(key)
+                lo, hi = min(sub), max(sub)
+                ta, tk = full_args(tail)
+                try:
+                    fresh = tail_cls(*ta, **tk)
+                except TypeError:
+                    break
+                log.clear()
+                obj = fresh
+                for i in reversed(range(lo, hi + 1)):
+                    a, k = full_args(elems[i])
+                    obj = classes[i](obj, *a, **k)
+                want_sub = normalise(log)
+                log.clear()
+                fresh2 = tail_cls(*ta, **tk)
+                log.clear()
+                got_obj = expr >> fresh2
+                got_sub = normalise(log)
+                if got_sub != want_sub:
+                    res.fail("reused-template-expression-differs", f"the intermediate expression over elements {lo}..{hi} of tree {spec['tree']}, bound to a fresh pool after the full chain was built, constructs {got_sub}, expected {want_sub}")
+                    return res
             log[:] = first_log
         err = None
     except TypeError as e:
